@@ -2,7 +2,7 @@
 import ast
 
 from ..framework import rule
-from ..astutil import dotted, call_name, call_recv, norm, walk_local, unparse
+from ..astutil import dotted, call_name, call_recv, norm, walk_local, unparse, ancestors
 from ..consteval import ceval, UNKNOWN, MAYBE
 from .. import q
 from .common import assigned_value, kw, arg, enclosing_for, new_cells_validates_name
@@ -38,7 +38,7 @@ def provably_empty(fi, name, repo):
     return all(isinstance(ceval(v, repo, fi), frozenset) and not ceval(v, repo, fi) for v in vals)
 
 
-@rule("C12.R1", "C12", "DOM", "a non-vacuous clash test dominates every insertion of a named member", min_instances=10)
+@rule("C12.R1", "C12", "DOM", "a non-vacuous clash test dominates every insertion of a named member", min_instances=10, also=("C11",))
 def r1(ctx, R):
     """new_cells / rename_cells / rename_space / new_space / copy_space: `_can_add` false ->
     raise, dominating the insertion; new_ref: _find_name_in_subs; add_bases: member-name
@@ -240,6 +240,30 @@ def r1(ctx, R):
                  all(isinstance(e, ast.Constant) for e in n.elts) and {e.value for e in n.elts} >= {"cells", "spaces"}]
         if not kinds or {e.value for e in kinds[0].elts} != {"spaces", "cells", "refs"}:
             R.bad(ck, ck.node, "conflict test does not compare spaces, cells and refs", stmt="kinds")
+        # every unordered pair of the three kinds is intersected
+        inter = [x for x in walk_local(ck.node) if isinstance(x, ast.BinOp) and isinstance(x.op, ast.BitAnd)]
+        okp = False
+        for x in inter:
+            a_, b_ = x.left, x.right
+            if not (isinstance(a_, ast.Name) and isinstance(b_, ast.Name)):
+                continue
+            fo = [n_ for n_ in ancestors(ck.pm, x) if isinstance(n_, ast.For)]
+            wh = [n_ for n_ in ancestors(ck.pm, x) if isinstance(n_, ast.While)]
+            # idiom 1: while kinds: names = kinds.pop(); for others in kinds: names & others
+            if fo and wh and isinstance(fo[0].target, ast.Name) and {a_.id, b_.id} >= {fo[0].target.id}:
+                other = ({a_.id, b_.id} - {fo[0].target.id} or {None}).pop()
+                pv = [v for v in assigned_value(ck, other)] if other else []
+                if norm(fo[0].iter) == norm(wh[0].test) and pv and isinstance(pv[0], ast.Call) and call_name(pv[0]) == "pop" \
+                        and norm(pv[0].func.value) == norm(wh[0].test):
+                    okp = True
+            # idiom 2: for a, b in itertools.combinations(kinds, 2)
+            if fo and isinstance(fo[0].target, ast.Tuple) and {a_.id, b_.id} == {norm(e) for e in fo[0].target.elts} \
+                    and isinstance(fo[0].iter, ast.Call) and call_name(fo[0].iter) == "combinations" \
+                    and len(fo[0].iter.args) == 2 and norm(fo[0].iter.args[1]) == "2":
+                okp = True
+        if not okp:
+            R.bad(ck, ck.node, "the conflict test does not intersect every pair of (spaces, cells, refs): a clash between two of "
+                               "the kinds is accepted", stmt="all pairs")
         iters = [n.iter for n in ast.walk(ck.node) if isinstance(n, (ast.For, ast.comprehension))]
         if not any(norm(i) == "mro" for i in iters):
             R.bad(ck, ck.node, "conflict test does not collect the names along the MRO", stmt="for sname in mro")
